@@ -32,6 +32,7 @@ type refTerm struct {
 	// enhancement flags; index 0 = main, 1 = alternate. kittyUnderflow records a pop from
 	// an empty stack (harmless for the terminal, but an unbalanced pair for the program).
 	kittyDepth     [2]int
+	unimplemented  map[int]bool // private modes this terminal does not implement (ignored)
 	kittyUnderflow bool
 	pointer        string
 	appID          string
@@ -272,6 +273,9 @@ func (t *refTerm) csi(private byte, params string, inter string, final byte) {
 		}
 		for _, p := range ps {
 			m := p[0]
+			if t.unimplemented[m] {
+				continue // a terminal ignores private modes it does not implement
+			}
 			switch m {
 			case 25:
 				t.visible = set
